@@ -92,6 +92,7 @@ func (m *monitor) precedenceBlock(dead string) *block {
 		u("redir", "redir /dir/movedd/ /elsewhere 302"),
 		u("redir", "redir /moved.txt /elsewhere 302"),
 		u("internal", "internal /intern"),
+		u("internal", "internal /dir/hid-"+tokIntern),
 		u("templates", "templates /tpl .html"),
 		u("templates", "templates /secret .html"),
 		u("templates", "templates /intern .html"),
@@ -115,18 +116,19 @@ func (m *monitor) precedenceBlock(dead string) *block {
 // precedenceFiles are the extra fixture files oracle 2 needs.
 func precedenceFiles() map[string]string {
 	return map[string]string{
-		"extp/page.html":                 tokSecret + " extp\n" + filler("extp", 300),
-		"tryp/page.htm":                  tokSecret + " tryp\n" + filler("tryp", 300),
-		"secret/b/" + tokSecret + ".txt": "x\n",
-		"intern/b/" + tokIntern + ".txt": "x\n",
-		"tpl/moved.html":                 "MOVED-TPL {{.URI}}\n",
-		"docs/moved.md":                  "# moved\n",
-		"dir/movedd/x.txt":               "x\n",
-		"moved.txt":                      "MOVED-TXT\n",
-		"open-file":                      "OPEN-FILE-PLAIN\n",
-		"api/echo.txt":                   "static shadow of the proxied path\n",
-		"intern/api/x":                   "static below internal " + tokIntern + "\n",
-		"dead/x.txt":                     "static below the dead proxy\n",
+		"extp/page.html":                  tokSecret + " extp\n" + filler("extp", 300),
+		"tryp/page.htm":                   tokSecret + " tryp\n" + filler("tryp", 300),
+		"secret/b/" + tokSecret + ".txt":  "x\n",
+		"intern/b/" + tokIntern + ".txt":  "x\n",
+		"dir/hid-" + tokIntern + "/k.txt": "x\n",
+		"tpl/moved.html":                  "MOVED-TPL {{.URI}}\n",
+		"docs/moved.md":                   "# moved\n",
+		"dir/movedd/x.txt":                "x\n",
+		"moved.txt":                       "MOVED-TXT\n",
+		"open-file":                       "OPEN-FILE-PLAIN\n",
+		"api/echo.txt":                    "static shadow of the proxied path\n",
+		"intern/api/x":                    "static below internal " + tokIntern + "\n",
+		"dead/x.txt":                      "static below the dead proxy\n",
 	}
 }
 
@@ -237,6 +239,8 @@ func (m *monitor) facts() []fact {
 	} {
 		fs = append(fs, fact{class: "internal-before-content/" + x.h, what: x.target + " is internal: " + x.h + " must not answer", q: get("internal", x.target), check: undisclosed(tokIntern)})
 	}
+	// internal also comes before browse as far as the parent's listing goes: what is internal is not listed
+	fs = append(fs, fact{class: "internal-before-content/browse-listing", what: "/dir/hid-... is internal: the listing of /dir/ must not name it", q: get("internal", "/dir/"), check: undisclosed("hid-" + tokIntern)})
 	// wrappers around every content handler
 	for _, x := range []struct{ h, target, tok string }{
 		{"static", "/a.txt", "A-TXT"}, {"templates", "/tpl/t.html", tokTplDone}, {"proxy", "/api/echo.txt", tokBackend}, {"markdown", "/docs/other.md", tokMarkdown}, {"browse", "/dir/", "f1.txt"},
